@@ -331,6 +331,83 @@ func pairings(rng *rand.Rand, nBig int) {
 	}
 }
 
+type msgPair struct {
+	Rel  string `json:"rel"`
+	Salt int    `json:"salt"`
+	M1   []int  `json:"m1"`
+	M2   []int  `json:"m2"`
+}
+
+type msgCase struct {
+	Pair  msgPair `json:"pair"`
+	Order string  `json:"order"`
+}
+
+func toBytes(v []int) []byte {
+	b := make([]byte, len(v))
+	for i, x := range v {
+		b[i] = byte(x)
+	}
+	return b
+}
+
+// msgPairs: the full cross table of two related messages in this process: the message met first
+// is signed and verified, its signature is presented for the other message, then the other way round.
+func msgPairs(w *world, cases []msgCase, order string) {
+	for _, c := range cases {
+		if c.Order != order {
+			continue
+		}
+		first, second := c.Pair.M1, c.Pair.M2
+		if c.Order == "rev" {
+			first, second = second, first
+		}
+		fb, sb := toBytes(first), toBytes(second)
+		sig1 := groupsig.Sign(w.sk[1], fb)
+		s1 := sig1.Serialize()
+		selfFirst, _ := verify(w.pk[1], fb, s1)
+		cross1, _ := verify(w.pk[1], sb, s1)
+		sig2 := groupsig.Sign(w.sk[1], sb)
+		s2 := sig2.Serialize()
+		selfSecond, _ := verify(w.pk[1], sb, s2)
+		cross2, _ := verify(w.pk[1], fb, s2)
+		emit("MsgPair", map[string]interface{}{"rel": c.Pair.Rel, "order": c.Order, "ms": first, "mo": second,
+			"selfFirst": selfFirst, "selfSecond": selfSecond, "crossFirstSigSecondMsg": cross1, "crossSecondSigFirstMsg": cross2,
+			"sigEqual": bytes.Equal(s1, s2)})
+	}
+}
+
+// history: an honest signature must verify whatever the process hashed before or in between: many
+// unrelated messages (more than any cache of recent hashes is likely to hold), and messages related to
+// the signed one arriving once it may have been forgotten.
+func history(rng *rand.Rand, w *world, others int) {
+	for _, n := range []int{5, 32, 40, 64} {
+		m := make([]byte, n)
+		rng.Read(m)
+		m[0] |= 1
+		sig := groupsig.Sign(w.sk[1], m)
+		s := sig.Serialize()
+		before, _ := verify(w.pk[1], m, s)
+		for i := 0; i < others; i++ {
+			o := make([]byte, 8+rng.Intn(60))
+			rng.Read(o)
+			groupsig.Sign(w.sk[2], o)
+		}
+		// relatives of m: same tail / leading zeros
+		rel := append([]byte{0}, m...)
+		groupsig.Sign(w.sk[2], rel)
+		if n > 32 {
+			rel2 := append([]byte(nil), m...)
+			rel2[0] ^= 0x5a
+			groupsig.Sign(w.sk[2], rel2)
+		}
+		after, _ := verify(w.pk[1], m, s)
+		again := groupsig.Sign(w.sk[1], m)
+		emit("History", map[string]interface{}{"kind": fmt.Sprintf("len%d", n), "others": others, "before": before, "after": after,
+			"sigSame": bytes.Equal(again.Serialize(), s)})
+	}
+}
+
 func main() {
 	out := flag.String("out", "trace.ndjson", "trace file")
 	script := flag.String("script", "", "JSON file: list of TLC-generated cases")
@@ -339,8 +416,21 @@ func main() {
 	extras := flag.Bool("extras", false, "also record round trips, pairings, pairing-value comparison")
 	nBig := flag.Int("bigpairs", 4, "pairings on 255-bit scalars (with --extras)")
 	sweep := flag.Int("sweep", 0, "honest sign/verify/round-trip of this many fresh random messages (completeness over messages)")
+	msgScript := flag.String("msgscript", "", "JSON file: related message pairs generated by TLC")
+	msgOrder := flag.String("msgorder", "fwd", "which order of every pair this process replays (fwd | rev)")
+	others := flag.Int("others", 1500, "unrelated messages hashed between the two verifications of a History event")
 	flag.Parse()
 	outAbs, _ := filepath.Abs(*out)
+	var mcases []msgCase
+	if *msgScript != "" {
+		b, err := os.ReadFile(*msgScript)
+		if err != nil {
+			vutil.Fatalf("read msgscript: %v", err)
+		}
+		if err := json.Unmarshal(b, &mcases); err != nil {
+			vutil.Fatalf("parse msgscript: %v", err)
+		}
+	}
 	var cases []tcase
 	if *script != "" {
 		b, err := os.ReadFile(*script)
@@ -381,7 +471,14 @@ func main() {
 			emit("Verify", map[string]interface{}{"case": c, "applicable": true, "verdict": v, "eqHonest": true, "len": len(wire), "panicked": p})
 		}
 	}
+	if len(mcases) > 0 {
+		// first thing related messages meet in this process is each other (before the history runs)
+		w := newWorld(rng)
+		msgPairs(w, mcases, *msgOrder)
+		history(rng, w, *others)
+	}
 	tr.Close()
-	fmt.Printf("c14: verify=%d notApplicable=%d g1parse=%d roundtrip=%d pair=%d pairbig=%d gteq=%d events=%d\n",
+	fmt.Printf("c14: msgpair=%d history=%d verify=%d notApplicable=%d g1parse=%d roundtrip=%d pair=%d pairbig=%d gteq=%d events=%d\n",
+		counts["MsgPair"], counts["History"],
 		counts["Verify"], counts["notApplicable"], counts["G1Parse"], counts["RoundTrip"], counts["Pair"], counts["PairBig"], counts["GtEq"], tr.N)
 }
